@@ -215,8 +215,12 @@ fn scan_token_end(bytes: &[u8], start: usize) -> usize {
       }
     }
   } else {
-    // Single character (operator, delimiter, etc.)
+    // Single character (operator, delimiter, etc.): step over the whole
+    // character, not just its first byte
     pos += 1;
+    while pos < bytes.len() && (bytes[pos] & 0xC0) == 0x80 {
+      pos += 1;
+    }
   }
   pos
 }
@@ -248,7 +252,12 @@ fn scan_token_start(bytes: &[u8], pos: usize) -> usize {
     }
     start
   } else {
-    pos
+    // `pos` may be the last byte of a multi-byte character
+    let mut start = pos;
+    while start > 0 && (bytes[start] & 0xC0) == 0x80 {
+      start -= 1;
+    }
+    start
   }
 }
 
